@@ -41,7 +41,7 @@ def do_import():
     try:
         for pid in sorted(os.listdir(INCOMING)):
             d = os.path.join(INCOMING, pid)
-            for x in ("a", "b", "c", "d", "e", "f", "g", "h", "i", "j", "k", "l", "m", "n"):
+            for x in ("a", "b", "c", "d", "e", "f", "g", "h", "i", "j", "k", "l", "m", "n", "o", "p"):
                 patch = os.path.join(d, "patch_%s.rebased.diff" % x)
                 if not os.path.exists(patch):
                     patch = os.path.join(d, "patch_%s.diff" % x)
